@@ -27,15 +27,20 @@ BUSY_SOURCE = '.test "t" {\n    ldx #1\n    jsr spin\n    brk\n    spin: jmp spi
 JSR_LINE = 3
 
 
-def local_findings(rep, prop):
-    p = os.path.join(HERE, "findings.jsonl")
-    if os.path.exists(p):
-        for line in open(p):
-            line = line.strip()
-            if line:
-                f = json.loads(line)
-                if f.get("property") == prop and f.get("status") == "open":
-                    rep.open.setdefault(f["deviation"], f)
+# latent deviations that stand behind the open UnwrapSharedContext finding (the unwrap panic hides them); repaired together with it
+UNWRAP_GROUP = ["UnwrapSharedContext", "JoinBlockedInAccept", "SessionIgnoresFlag", "UnboundedJoin"]
+
+
+def pinned(rep, prop):
+    """Open findings decide which reading of Shutdown.tla is pinned: open -> deviation on, fixed -> off
+    (known_findings.jsonl, or VERIF_FINDINGS for trial runs; rows only in checks/C20/findings.jsonl count too)."""
+    rep.open = D.open_rows(D.findings_view((prop,), V.VERIF), prop)
+    devs = set()
+    if "UnwrapSharedContext" in rep.open:
+        devs |= set(UNWRAP_GROUP)
+    if "SignalPanicsDebugThread" in rep.open:
+        devs.add("SignalPanicsDebugThread")
+    return sorted(devs)
 
 
 def scenarios(rnd, reps):
@@ -155,23 +160,30 @@ def run_one(mos, sc, bound):
     return obs
 
 
-def design_level(rep):
+def design_level(rep, devs):
     mc = os.path.join(SPEC, "MC_Shutdown.tla")
-    for name, what in (("ideal", "Deviations = {}: CleanExit, Terminates (weak fairness of server threads and of the LSP client's goal)"),
-                       ("impl", "all three deviations: CleanExit weakened only by the unwrap-panic witness, Terminates")):
-        r = V.tlc(mc, cfg=os.path.join(SPEC, "MC_Shutdown_%s.cfg" % name), workers=2, timeout=600, tag="C20-mc-" + name)
+    pcfg = os.path.join(V.workdir("C20-cfg"), "MC_Shutdown_pinned.cfg")
+    with open(pcfg, "w") as f:
+        f.write("SPECIFICATION Spec\nCONSTANT Deviations = %s\nINVARIANT TypeOK\nINVARIANT CleanExit_impl\nPROPERTY Terminates\n" % D.tla_set(devs))
+    runs = [("ideal", os.path.join(SPEC, "MC_Shutdown_ideal.cfg"), "Deviations = {}: CleanExit, DebugThreadAlive, Terminates (weak fairness of server threads and of the LSP client's goal)")]
+    if devs:
+        runs.append(("pinned", pcfg, "Deviations = %s (open findings and what stands behind them): CleanExit weakened only by the panic witnesses, Terminates" % D.tla_set(devs)))
+    else:
+        rep.notes.append("no open finding: the pinned reading is the ideal reading")
+    for name, cfgp, what in runs:
+        r = V.tlc(mc, cfg=cfgp, workers=2, timeout=600, tag="C20-mc-" + name)
         rep.add_tlc(r)
         if r.invariant_violated or r.rc in (12, 13):
-            rep.violations.append({"why": "design level: MC_Shutdown_%s violated" % name, "replay": {"tlc_output": V.tail(r.out, 100)}, "id": "MC_Shutdown_" + name})
+            rep.violations.append({"why": "design level: MC_Shutdown %s reading violated" % name, "replay": {"tlc_output": V.tail(r.out, 100)}, "id": "MC_Shutdown_" + name})
             return
         if r.rc != 0 or "Error:" in r.out:
             raise V.ToolError("MC_Shutdown_%s failed:\n%s" % (name, V.tail(r.out, 40)))
-        rep.notes.append("MC_Shutdown_%s: %d distinct states; %s hold" % (name, r.distinct, what))
+        rep.notes.append("MC_Shutdown %s: %d distinct states; %s hold" % (name, r.distinct, what))
     for name, what in (("cex_unwrap", "UnwrapSharedContext: CleanExit fails (exit 101)"),
-                       ("cex_accept", "JoinBlockedInAccept: with the unwrap repaired, Terminates fails (join waits on a thread in accept())"),
-                       ("cex_late", "SessionIgnoresFlag: a session registered after the handlers were invoked keeps the process alive"),
+                       ("cex_accept", "JoinBlockedInAccept + UnboundedJoin: with the unwrap repaired, Terminates fails (join waits on a thread in accept())"),
+                       ("cex_late", "SessionIgnoresFlag + UnboundedJoin: a session registered after the handlers were invoked keeps the process alive"),
                        ("cex_select", "SignalPanicsDebugThread: the debug thread dies on the shutdown signal"),
-                       ("cex_busy", "BusyStepBlocksJoin: with the unwrap repaired, a session thread busy in a step that never returns cannot be joined"),
+                       ("cex_busy", "UnboundedJoin: a session thread busy in a step that never returns cannot be joined"),
                        ("cex_rendezvous", "hypothetical RendezvousSignal: `shutdown` cannot complete while the session thread is busy (Terminates fails)"),
                        ("vac_busy", "a behaviour that reaches `shutdown` with the session thread busy in a step exists"),
                        ("vac_paused", "a behaviour with a paused test exists"), ("vac_joined", "a behaviour that joins the debug thread exists")):
@@ -184,9 +196,9 @@ def design_level(rep):
 
 def main(tier):
     rep = V.Report("C20", tier)
-    local_findings(rep, "C20")
+    devs = pinned(rep, "C20")
     mos = V.build_mos()
-    design_level(rep)
+    design_level(rep, devs)
     rnd = V.rng("C20")
     scs = scenarios(rnd, 1 if tier == "quick" else 5)
     bound = 4.0 if tier == "quick" else 8.0
@@ -223,6 +235,7 @@ def main(tier):
         if o["setup"] != "ok":
             continue
         recs.append({k: o[k] for k in ("id", "state", "mode", "order", "rc", "ms", "bound", "portAfter", "panicAt", "blocked", "life", "others", "shutdownReply")})
+        recs[-1]["devs"] = devs
     # binding self-test: a corrupted observation must be rejected (status 3 after shutdown+exit; a hang)
     probes = [dict(recs[0], id=10 ** 6, mode="shutdown_exit", rc=3, panicAt="", life=[], others=[]), dict(recs[0], id=10 ** 6 + 1, rc=-1, blocked=["futex_do_wait"], life=[], others=[])]
     verdicts, st = V.judge(os.path.join(SPEC, "ShutdownTrace.tla"), recs + probes, cfg=os.path.join(SPEC, "ShutdownTrace.cfg"), tag="C20-judge", timeout=600)
